@@ -498,9 +498,19 @@ def run(chk):
     _, rm_fn = repo.method('MessageInterface', 'receive_message', 'C19.R7')
     f2 = new_folder(repo, steps=20000)
 
+    def mk_interface(sock):
+        # through the real constructor (it may create per-connection state such as a receive buffer)
+        try:
+            o = f2._construct(repo.cls('MessageInterface', 'C19.R7'), [], {'connection_socket': sock})
+            f2._fresh.add(id(o))
+            f2._keep.append(o)
+            return o
+        except (Unsupported, FoldRaise):
+            return fresh(f2, 'MessageInterface', connection_socket=sock)
+
     def send_bytes(msgs):
         sock = ScriptSock()
-        o = fresh(f2, 'MessageInterface', connection_socket=sock)
+        o = mk_interface(sock)
         for m in msgs:
             r = call_in('C19.R7', q_sm, lambda: f2.call_method(o, 'send_message', m))
             if r[0] != 'ok':
@@ -509,7 +519,7 @@ def run(chk):
 
     def receive_all(data, plan, n_expected):
         sock = ScriptSock(data, plan)
-        o = fresh(f2, 'MessageInterface', connection_socket=sock)
+        o = mk_interface(sock)
         got = []
         for _ in range(n_expected + 1):
             try:
